@@ -17,13 +17,15 @@ TITLE = "The scan engine conforms to the interval-nesting model for any registry
 
 BOUNDS = {
     "quick": dict(
-        full=[dict(N=4, K=2, depths=(-1, 0, 1, 2, 3), modes=hitx.MODES, grouped=(False, True)),
+        full=[dict(N=4, K=2, depths=(1, 2, 3), modes=("r0", "rp"), grouped=(False,), hi=True, kinds=hitx.KINDS_HI),
+              dict(N=4, K=2, depths=(-1, 0, 1, 2, 3), modes=hitx.MODES, grouped=(False, True)),
               dict(N=4, K=3, depths=(1, 2), modes=("r0",), grouped=(False,))],
         ties=[],
         streams="quick",
     ),
     "thorough": dict(
-        full=[dict(N=5, K=2, depths=(-1, 0, 1, 2, 3, 4), modes=hitx.MODES, grouped=(False, True)),
+        full=[dict(N=5, K=3, depths=(1, 2, 3), modes=("r0", "rp"), grouped=(False,), hi=True, kinds=hitx.KINDS_HI),
+              dict(N=5, K=2, depths=(-1, 0, 1, 2, 3, 4), modes=hitx.MODES, grouped=(False, True)),
               dict(N=4, K=3, depths=(1, 2, 3), modes=hitx.MODES, grouped=(False, True)),
               dict(N=5, K=3, depths=(1, 2, 3), modes=("r0", "rd"), grouped=(False,))],
         ties=[dict(N=4, K=4, depths=(1, 2), modes=("r0",), grouped=(False,))],
@@ -62,7 +64,7 @@ def plan(tier, seed):
     units = [("special", "empty-registry"), ("special", "no-hits")]
     for blk_kind in ("full", "ties"):
         for bi, blk in enumerate(b[blk_kind]):
-            for ci in range(len(hitx.candidates(blk["N"]))):
+            for ci in range(len(hitx.candidates(blk["N"], blk.get("kinds", hitx.KINDS)))):
                 units.append((blk_kind, tier, bi, ci))
     for u in streams.plan(b["streams"]):
         units.append(("stream", u))
@@ -97,6 +99,10 @@ def parents_ok(root):
             if c.parent is not n:
                 return False
     return True
+
+
+def _plain(k):
+    return k in ("p", "q", "u")
 
 
 def cause(T, hits):
@@ -169,9 +175,10 @@ def run_unit(unit, rec):
     elif kind in ("full", "ties"):
         _, tier, bi, ci = unit
         blk = BOUNDS[tier][kind][bi]
-        T = hitx.text(blk["N"])
-        first = hitx.candidates(blk["N"])[ci]
-        for hits in hitx.configs_from(first, blk["N"], blk["K"], tie_perms_only=(kind == "ties")):
+        kinds = blk.get("kinds", hitx.KINDS)
+        T = hitx.text_for(blk["N"], blk.get("hi", False))
+        first = hitx.candidates(blk["N"], kinds)[ci]
+        for hits in hitx.configs_from(first, blk["N"], blk["K"], kinds=kinds, tie_perms_only=(kind == "ties")):
             for depth in blk["depths"]:
                 for mode in blk["modes"]:
                     for grouped in blk["grouped"]:
